@@ -809,6 +809,12 @@ struct LPCase
          sp.changeElementRational(i, j, valR(tk.next()));
          std::cout << "CHGELEM hasBasis=" << (sp.hasBasis() ? 1 : 0) << std::endl;
       }
+      else if(cmd == "RMCOL")
+      {
+         int j = tk.nextInt();
+         sp.removeColRational(j);
+         std::cout << "RMCOL hasBasis=" << (sp.hasBasis() ? 1 : 0) << " n=" << sp.numColsRational() << std::endl;
+      }
       else if(cmd == "TIMES")
       {
          if(!ok)
